@@ -742,8 +742,8 @@ def channel_pairing(body, adt_suffix, sender_field, receiver_field):
             if o[0] != "call" or len(o) < 3 or o[2] != "." + str(idx):
                 return None
             fr = op_fn(body.blocks[o[1]]["term"]["func"])
-            if not fr or tail(fn_name(fr), 1) not in ("unbounded", "bounded"):
-                return None
+            if not fr or tail(fn_name(fr), 1) != "unbounded":
+                return None      # a bounded channel can refuse or block a Drop-time send
             out.add(o[1])
         return out
     cs, cr = chan(so, 0), chan(ro, 1)
